@@ -3,7 +3,7 @@
 From Coq Require Import List Arith Bool.
 Import ListNotations.
 From SV Require Import Model.Object Spec.ObjectSpec Proofs.ObjectProofs Proofs.ObjectThms
-  Proofs.ObjectIdem Proofs.ObjectConfig Proofs.ObjectTail Instances.ObjectExamples.
+  Proofs.ObjectIdem Proofs.ObjectConfig Proofs.ObjectTail Proofs.ObjectInitIdem Instances.ObjectExamples.
 
 (** The material part of the provenance of form_factors_tilde and energy_init_source depends on the
     table list and brdf_index only through the per-wall resolution: overwritten tables and the order of
@@ -97,3 +97,37 @@ Theorem C16_final_config_state_independent (g : geo) (s s' : ostate) (src tid ns
      ocollect g (orun g s' (tail src tid ns order)) recv direct).
 Proof. exact (tail_cfg g s s' src tid ns order). Qed.
 Print Assumptions C16_final_config_state_independent.
+
+(** Repeating init_source_energy with the same source leaves the state unchanged (Leibniz equality of
+    all 25 attributes), for EVERY state: also when the first call installed the default BRDF, the
+    default frequency vector or the default attenuation -- the second call then finds them set. *)
+Theorem C16_idempotent_init_source (g : geo) (s : ostate) (src : nat) :
+  fst (oinit_source g s src) = ROk ->
+  oinit_source g (snd (oinit_source g s src)) src = oinit_source g s src.
+Proof. exact (init_idem g s src). Qed.
+Print Assumptions C16_idempotent_init_source.
+
+(** The whole tail twice.  If the object has its materials and an attenuation when the tail starts
+    (init_source_energy has no default to install) and  bake; init_source src; exchange(recalculate)
+    answers Ok three times, then running the same tail again answers Ok three times and ends in the
+    same state (all 25 attributes).  Without the materials proviso this is refuted
+    (C16_final_config_refuted_default_brdf). *)
+Theorem C16_idempotent_tail (g : geo) (s : ostate) (src tid ns order : nat) :
+  o_dirs_in s <> None -> o_att s <> None ->
+  forallb rok (tail_classes g s (tail src tid ns order)) = true ->
+  tail_classes g (orun g s (tail src tid ns order)) (tail src tid ns order) = [ROk; ROk; ROk] /\
+  orun g s (tail src tid ns order ++ tail src tid ns order) = orun g s (tail src tid ns order).
+Proof. exact (tail_twice g s src tid ns order). Qed.
+Print Assumptions C16_idempotent_tail.
+
+(** The attenuation proviso cannot be dropped in the model: the first bake records "no attenuation"
+    in the provenance of form_factors_tilde, the second the zero attenuation installed in between
+    (both mean a factor 1; a difference of provenance only). *)
+Theorem C16_idempotent_tail_needs_attenuation :
+  exists g s src tid ns order,
+    o_dirs_in s <> None /\ o_att s = None /\
+    tail_classes g s (tail src tid ns order ++ tail src tid ns order) = [ROk; ROk; ROk; ROk; ROk; ROk] /\
+    o_tilde (orun g s (tail src tid ns order ++ tail src tid ns order)) <>
+    o_tilde (orun g s (tail src tid ns order)).
+Proof. exact tail_twice_needs_att. Qed.
+Print Assumptions C16_idempotent_tail_needs_attenuation.
